@@ -14,7 +14,7 @@ from hypothesis import HealthCheck, Phase, Verbosity, given, seed, settings
 from . import build
 from . import judge
 
-SHRINK_BUDGET = 150     # real executions allowed after the first failure
+SHRINK_BUDGET = 80     # real executions allowed after the first failure
 
 
 def shard_seed(base, prop, idx):
@@ -46,6 +46,9 @@ def main(argv):
             out = mod.run_case(case)
         except build.InfraError as e:
             res["infra"] = "%s\ncase: %s" % (e, cj[:3000])
+            return
+        except Exception as e:       # a harness bug must never look like a violation
+            res["infra"] = "harness exception %s: %s\n%s\ncase: %s" % (type(e).__name__, e, traceback.format_exc()[-2000:], cj[:2000])
             return
         if not st["failed"]:
             res["evaluations"] += 1
